@@ -20,6 +20,16 @@ independent conditions holding at once (for instance a particular operator AND a
 particular position in the rule AND something evaluated earlier), so that inputs chosen at random from a small pool do
 not meet it. Prefer places and mechanisms you think a checker written from the property text alone would look at least.
 """,
+    "edges": """
+Extra request for this round: aim at the EDGES of the input space rather than at ordinary inputs, and keep the change
+plausible. Ideas (pick what fits the property): Go value shapes a JSON decoder never produces but a caller may pass -
+typed nils, named types, pointers to scalars, arrays, maps with other key or value types, sized integers, float32,
+json.Number, time.Time, values whose String method has a pointer receiver; numbers at the limits (MinInt64, 2^53, -0,
+subnormals, NaN); texts with combining marks, title-case letters, characters whose lower case has another byte length,
+NUL bytes, very long runs; rules that are very deep, very long, or repeat the same sub-rule many times; the second and
+later uses of one evaluator; two evaluators for texts that differ only slightly. The defect should stay invisible for
+plain JSON-like inputs and short rules.
+""",
 }
 
 TEMPLATE = """# Seeding a defect that the existing tests do not catch
